@@ -126,7 +126,16 @@ def _recon_traces(rep, quick, seed):
         combos = combos[:14]
     for ci, (s, npat, bs, ratio, mode) in enumerate(combos):
         # seeds: zero (falsy), small, large, and a Generator object
-        rs = [0, 7 + (seed % 5), 2 ** 31 + 11, 1][ci % 4]
+        # (also beyond 32 bits.  Generator OBJECTS are not used as seeds here: the fixture hands its `rng` argument to
+        # the object model, the probe model and the reconstruction, which would then share - and the fixture's own
+        # perturbation would pre-consume - one stream; that sharing is the caller's doing, not the library's)
+        mk = [lambda: 0, lambda: 7 + (seed % 5), lambda: 2 ** 31 + 11, lambda: 1, lambda: 2 ** 32 + 11,
+              lambda: 2 ** 40 + 3][ci % 6]
+
+        class _Seed:            # every use below builds a new, equal seed object
+            def __call__(self):
+                return mk()
+        rs_f = _Seed()
         # preprocessing may chunk its overlap computation (preprocess(batch_size=...)): nothing but the batcher may
         # draw from the reconstruction's generator, or "reset replays the first run" breaks
         pbs = [None, 4, 5][ci % 3]
@@ -134,7 +143,7 @@ def _recon_traces(rep, quick, seed):
         sink: list = []
         vt.set_sink(sink)
         try:
-            p = tp.build(s, perturb=0.05, rng=rs, val_ratio=ratio, val_mode=mode, preprocess_batch_size=pbs)
+            p = tp.build(s, perturb=0.05, rng=rs_f(), val_ratio=ratio, val_mode=mode, preprocess_batch_size=pbs)
             p.reconstruct(num_iters=2, batch_size=bs, optimizer_params=json.loads(json.dumps(opt)))
             la = [float(x) for x in p.iter_losses]
             p.reconstruct(num_iters=2, batch_size=bs, reset=True,
@@ -154,7 +163,7 @@ def _recon_traces(rep, quick, seed):
         sink2: list = []
         vt.set_sink(sink2)
         try:
-            q = tp.build(s, perturb=0.05, rng=rs, val_ratio=ratio, val_mode=mode,
+            q = tp.build(s, perturb=0.05, rng=rs_f(), val_ratio=ratio, val_mode=mode,
                          preprocess_batch_size=[5, None, 4][ci % 3])      # (another chunking than run A)
             q.reconstruct(num_iters=2, batch_size=bs, optimizer_params=json.loads(json.dumps(opt)))
             lq = [float(x) for x in q.iter_losses]
